@@ -299,4 +299,55 @@ theorem qb4_serializable : QSerializable qs_quantized_bits qb4 := by
   refine ⟨?_, ?_, ?_, ?_, ?_, ?_, ?_, ?_, ?_, ?_, ?_, ?_, ?_, ?_, ?_, ?_⟩ <;>
     first | (intro _; rfl) | (intro h; exact absurd (by decide) h) | simp
 
+
+def heNormal : PyVal := .dict [("class_name", .str "HeNormal"), ("config", .dict [("seed", .none)])]
+def zerosInit : PyVal := .dict [("class_name", .str "Zeros"), ("config", .dict [])]
+
+/-- `QDense(3, kernel_quantizer=quantized_bits(4,0,1,alpha=1), name="d")` after its constructor -/
+def denseEx : Layer :=
+  ⟨"QDense", [("name", .str "d"), ("trainable", .bool true), ("dtype", .str "float32")],
+   ls_QDense.params.map fun p =>
+     if p.name == "units" then (p.name, .lit (.num 3))
+     else if p.name == "activation" then (p.name, .act (.fn "linear"))
+     else if p.name == "kernel_quantizer" then (p.name, .q (.obj qb4))
+     else if p.name == "kernel_constraint" then (p.name, .constr (.clip ⟨.num (-1), .num 1, .none, .obj qb4⟩))
+     else if p.name == "kernel_initializer" then (p.name, .init (.qinit heNormal (.bool true) (.obj qb4)))
+     else if p.name == "bias_initializer" then (p.name, .init (.keras zerosInit))
+     else (p.name, p.default)⟩
+
+/-- …it satisfies every hypothesis of `C13_layer_roundtrip` -/
+theorem denseEx_ok (cb : QVal → PyVal) : LayerOK (env cb) ls_QDense denseEx := by
+  have hw := C13_table_wellformed ls_QDense (by simp [lSpecs])
+  refine ⟨rfl, hw.1, by decide, rfl, ?_, hw.2.1, hw.2.2, ?_, ?_, ?_⟩
+  · simp only [ls_QDense, List.forall_mem_cons]
+    refine ⟨?_, ?_, ?_, ?_, ?_, ?_, ?_, ?_, ?_, ?_, ?_, ?_, ?_, ?_, ?_⟩ <;>
+      first | (intro _; rfl) | (intro h; exact absurd h (by decide)) | simp
+  · simp only [ls_QDense, List.forall_mem_cons]
+    refine ⟨?_, ?_, ?_, ?_, ?_, ?_, ?_, ?_, ?_, ?_, ?_, ?_, ?_, ?_, ?_⟩ <;>
+      first | (intro _; exact ⟨_, rfl⟩) | (intro h; exact absurd h (by decide)) | simp
+  · simp only [ls_QDense, List.forall_mem_cons]
+    refine ⟨?_, ?_, ?_, ?_, ?_, ?_, ?_, ?_, ?_, ?_, ?_, ?_, ?_, ?_, ?_⟩ <;>
+      first | (intro _ _; rfl) | rfl | (intro _; rfl) | (intro h; exact absurd h (by decide)) | simp
+  · simp only [ls_QDense, List.forall_mem_cons]
+    refine ⟨?_, ?_, ?_, ?_, ?_, ?_, ?_, ?_, ?_, ?_, ?_, ?_, ?_, ?_, ?_⟩ <;>
+      first | (intro _ h; exact absurd h (by decide)) | (intro h; exact absurd h (by decide)) | simp
+
+/-- a three-node model: InputLayer → QDense → Flatten -/
+def modelEx : Model :=
+  [⟨.keras "InputLayer" [("name", .str "in")], []⟩, ⟨.q denseEx, [0]⟩, ⟨.keras "Flatten" [("name", .str "f")], [1]⟩]
+
+/-- …and every node is covered by `C13_model_roundtrip_predict_partial` -/
+theorem modelEx_ok (cb : QVal → PyVal) : ∀ n ∈ modelEx, NodeOK (env cb) n.node := by
+  simp only [modelEx, List.forall_mem_cons]
+  refine ⟨NodeOK.keras _ _ rfl, NodeOK.q _ ls_QDense rfl rfl rfl (denseEx_ok cb), NodeOK.keras _ _ rfl, ?_⟩
+  simp
+
+/-- so the three routes rebuild `modelEx` and the rebuilt model predicts identically, whatever the
+    layers compute -/
+example {W V : Type} [Inhabited V] (cb : QVal → PyVal) :
+    ∃ m', modelFromConfig (env cb) (modelGetConfig (env cb) modelEx) = .ok m' ∧
+      ∀ (S : Sem W V) (ws : Nat → W) (inputs : List V),
+        predict (env cb) S m' ws inputs = predict (env cb) S modelEx ws inputs :=
+  C13_model_roundtrip_predict_partial (env cb) modelEx (modelEx_ok cb)
+
 end QKV.Props.C13
